@@ -293,10 +293,9 @@ class IpPairing(ZeroconfPairing):
         if not self.accessories:
             await self.list_accessories_and_characteristics()
 
-        if isinstance(characteristics, set):
-            characteristics_set = characteristics
-        else:
-            characteristics_set = set(characteristics)
+        # our own copy: the reply is matched against what was asked for, even if the
+        # caller's collection changes while the request is in flight
+        characteristics_set = set(characteristics)
 
         url = "/characteristics?id=" + ",".join(f"{aid}.{iid}" for aid, iid in characteristics_set)
 
